@@ -1,5 +1,39 @@
 package checks
 
-import "reflect"
+import (
+	"reflect"
+
+	"github.com/tormoder/fit"
+)
 
 func reflectValue(v interface{}) reflect.Value { return reflect.ValueOf(v) }
+
+// optionList returns the decode options selected by mask (bit 0 logger lg, bit 1 unknown fields,
+// bit 2 unknown messages) in the order perm%6 names, with the option perm/6%4 picks given twice
+// (0: none): the order and repetition of options must not matter.
+func optionList(mask int, lg fit.Logger, perm uint64) []fit.DecodeOption {
+	var sel []fit.DecodeOption
+	orders := [6][3]int{{0, 1, 2}, {0, 2, 1}, {1, 0, 2}, {1, 2, 0}, {2, 0, 1}, {2, 1, 0}}
+	mk := func(bit int) fit.DecodeOption {
+		switch bit {
+		case 0:
+			return fit.WithLogger(lg)
+		case 1:
+			return fit.WithUnknownFields()
+		}
+		return fit.WithUnknownMessages()
+	}
+	for _, bit := range orders[perm%6] {
+		if mask&(1<<uint(bit)) != 0 {
+			sel = append(sel, mk(bit))
+		}
+	}
+	if dup := int(perm / 6 % 4); dup > 0 && mask&(1<<uint(dup-1)) != 0 {
+		if perm/24%2 == 0 {
+			sel = append(sel, mk(dup-1))
+		} else {
+			sel = append([]fit.DecodeOption{mk(dup - 1)}, sel...)
+		}
+	}
+	return sel
+}
